@@ -465,7 +465,8 @@ func (x *Exec) assertT(c *Term, msg string) {
 	}
 	x.sol.SetTimeout(x.feasTimeout)
 	atomic.AddInt64(&R.AssertQueries, 1)
-	if res == "sat" && (len(x.ffApps) > 0 || len(x.pfApps) > 0) {
+	if res == "sat" && (len(x.ffApps) > 0 || len(x.pfApps) > 0) && os.Getenv("GOSMT_REFINE") != "" {
+		// (experimental, off by default: the refined queries mostly come back unknown on z3 4.8.12)
 		if c.op == OConst {
 			x.sol.Push()
 		}
